@@ -320,6 +320,19 @@ func harnessIntrinsic(short string) intrinsicFn {
 			}
 			return tTrue
 		}
+	case "vEncode":
+		// vEncode(kind, s): uninterpreted encoder; the result is an opaque token remembering s
+		return func(x *Exec, _ *ssa.Function, a []Value) Value {
+			return x.newToken("enc:"+x.strOf(a[0]), a[1])
+		}
+	case "vDecode":
+		// vDecode(kind, s) (string, bool): inverse of vEncode on tokens of the same kind; false for anything else
+		return func(x *Exec, _ *ssa.Function, a []Value) Value {
+			if ti := x.tokenOf(a[1]); ti != nil && ti.kind == "enc:"+x.strOf(a[0]) {
+				return tup(ti.arg, tTrue)
+			}
+			return tup(mkStr(""), tFalse)
+		}
 	case "vToken":
 		// vToken(tag) returns a fresh opaque one-element string token
 		return func(x *Exec, _ *ssa.Function, a []Value) Value {
@@ -1055,6 +1068,32 @@ func stdIntrinsic(name string, fn *ssa.Function) intrinsicFn {
 	switch {
 	case strings.HasPrefix(name, "(*log/slog.Logger)."), strings.HasPrefix(name, "log/slog."), strings.HasPrefix(name, "log."), strings.HasPrefix(name, "(*log.Logger)."):
 		return func(x *Exec, f *ssa.Function, a []Value) Value { return zeroResult(x, f.Signature) }
+	case strings.HasPrefix(name, "slices.Sorted["), strings.HasPrefix(name, "slices.Collect["):
+		sorted := strings.HasPrefix(name, "slices.Sorted[")
+		return func(x *Exec, _ *ssa.Function, a []Value) Value {
+			var elems []Value
+			yield := &NativeFn{Name: "collect", F: func(x *Exec, args []Value) Value {
+				elems = append(elems, args[0])
+				return tTrue
+			}}
+			x.callValue(a[0], []Value{yield})
+			if sorted {
+				// insertion sort; comparisons on symbolic elements fork the path
+				for i := 1; i < len(elems); i++ {
+					for j := i; j > 0; j-- {
+						lt, ok := x.binop(token.LSS, elems[j], elems[j-1], nil, nil).(*Term)
+						if !ok || !x.branch(lt) {
+							break
+						}
+						elems[j], elems[j-1] = elems[j-1], elems[j]
+					}
+				}
+			}
+			if len(elems) == 0 {
+				return (*SliceV)(nil)
+			}
+			return x.newSlice(elems, "sorted")
+		}
 	case strings.HasPrefix(name, "slices.Clone["):
 		return func(x *Exec, _ *ssa.Function, a []Value) Value {
 			s, _ := a[0].(*SliceV)
